@@ -1290,6 +1290,16 @@ def _run_reaction_beam(case):
         v.append(viol("reaction_unanswerable", f"Calc_Reaction on the clamped dofs raised {type(err).__name__}: {str(err)[:160]}",
                       error=type(err).__name__, **key))
         R = Kuu[rdofs] @ u  # continue the balance checks with the documented definition K[dofs] u
+    # the energy helper on the solved structure (documented idiom: K from Get_K_C_M_F, u as the solver leaves it) equals 1/2 u'Ku
+    uu = np.asarray(u, dtype=float).ravel()[: Nn * dof_n]
+    want = 0.5 * float(uu @ (Kuu @ uu))
+    try:
+        got = float(simu.Calc_Energy(simu.Get_K_C_M_F()[0], np.asarray(simu.displacement, dtype=float)))
+        if abs(got - want) > 1e-9 * abs(want):
+            v.append(viol("energy_helper", f"Calc_Energy(K, u) = {got!r}, 1/2 u'Ku = {want!r}", **key))
+    except Exception as err:
+        v.append(viol("energy_unanswerable", f"Calc_Energy(K, u) on the solved structure raised {type(err).__name__}: {str(err)[:160]} (1/2 u'Ku = {want!r})", error=type(err).__name__, **key))
+    ntr += 1
     G = np.zeros((Nn, dof_n))  # generalised nodal forces acting on the structure: loads + reactions proper
     G += F
     rn = int(np.asarray(root).ravel()[0])
